@@ -185,9 +185,6 @@ def c29(ck, F, tier):
     guarded(ck, ra.delete_style_flow, F)
     ck.rule("WIDTH-ACTUAL", "stored column widths never derive from the displayed width", floor=4)
     guarded(ck, ra.width_actual, F)
-    import rules_struct as rs_
-    ck.rule("MIRROR", "row setters and column setters are mirror images", floor=5)
-    guarded(ck, rs_.mirror_rule, F, ["attrs"])
 
 
 def c11(ck, F, tier):
@@ -390,8 +387,8 @@ def _struct_common(ck, F, which):
     ck.rule("REF-SHEET", "displaced references carry their node's sheet index", floor=4)
     guarded(ck, rs.ref_sheet, F)
     guarded(ck, rs.axis_flags, F)
-    ck.rule("MIRROR", "row code and column code are mirror images", floor=6)
-    guarded(ck, rs.mirror_rule, F, ["struct"], "MIRROR", True)
+    ck.rule("MIRROR", "the row and column arms of stringify_reference are mirror images", floor=3)
+    guarded(ck, rs.mirror_rule, F, [], "MIRROR", True)
     ck.rule("STYLE-LAST", "move_cell copies the source style after every re-entry of the content", floor=2)
     guarded(ck, rs.style_last, F)
     import rules_attr as ra_
@@ -503,8 +500,6 @@ def c27(ck, F, tier):
     guarded(ck, rs.spill_rules, F)
     guarded(ck, rs.descriptor_order, F)
     guarded(ck, rs.shift_lower_bounds, F)
-    ck.rule("MIRROR", "row and column variants of the frozen-pane guards are mirror images", floor=4)
-    guarded(ck, rs.mirror_rule, F, ["frozen"])
 
 
 def c30(ck, F, tier):
